@@ -129,7 +129,13 @@ class CirqSimulator(Backend):
 
                     # Perform measurement.
                     desired_meas = dmeas[0] if desired_meas_result else None
-                    measure, sv, cprob = self.perform_measurement(sv, qubits[0], desired_meas)
+                    try:
+                        measure, sv, cprob = self.perform_measurement(sv, qubits[0], desired_meas)
+                    except ValueError:
+                        # Desired outcome of zero probability: the shot is aborted. Finalize the classical control
+                        # anyway, so that it does not start the next run from the state of the aborted one.
+                        source_circuit.finalize_cmeasure_control()
+                        raise
                     measurements += measure
                     success_probability *= cprob
                     if desired_meas_result:
